@@ -29,8 +29,7 @@ theorem C13_refused_no_effect (abs : Abs) (st : NBState) (req : SetReq) (f : Fai
   · rfl
   · rename_i tx hs
     rw [hs] at h
-    simp only at h
-    split at h <;> cases h
+    cases h
 
 /-- The log grows by exactly the transaction `setPre` produced, and only when it produced one. -/
 theorem C13_log_grows_iff_accepted (abs : Abs) (st : NBState) (req : SetReq) :
@@ -168,30 +167,51 @@ theorem C13_delete_needs_lookup (abs : Abs) (env : Env) (req : SetReq) (tx : TxR
     · exact Or.inr ⟨search, kv, h1, h2, h3⟩
   · simp at hpass
 
-/-- Key/value contradiction (the part that holds): an accepted update of a key leaf carries a value
-    that equals *some* index of its path named like the leaf (or the path has no index at all). -/
-theorem C13_refuses_key_contradiction_partial (abs : Abs) (env : Env) (req : SetReq) (tx : TxRecord) (u : Update)
+/-- Key/value contradiction: an accepted update of a key leaf carries the value of the key of its
+    own list entry — the *last* index of its path named like the leaf (no later index has that
+    name; an enclosing list's same-named key does not count) — or the path has no index at all. -/
+theorem C13_refuses_key_contradiction (abs : Abs) (env : Env) (req : SetReq) (tx : TxRecord) (u : Update)
     (hok : setPre abs env req = .ok tx) (hop : Op.upd u ∈ opsOf req) (hj : u.isJson = false) :
     ∃ ov0 pl rw tv, pluginFor env ov0 (effTarget req.pfx (opTarget (.upd u))) = some pl ∧
       mapGet (anonymizePathIndices (effPath req.pfx u.path)) pl.rw = some rw ∧ abs.conv u.val rw = .ok tv ∧
       (rw.isAKey = true → ∃ ns vs, extractIndexNames (effPath req.pfx u.path) = .ok (ns, vs) ∧
-        (ns = [] ∨ ∃ nv ∈ ns.zip vs, nv.1 = rw.attrName ∧ nv.2 = tv.repr)) := by
+        (ns = [] ∨ ∃ k : Nat, ns[k]? = some rw.attrName ∧ vs[k]? = some tv.repr ∧
+          ∀ j : Nat, ns[j]? = some rw.attrName → j ≤ k)) := by
   obtain ⟨ov0, acc⟩ := setPre_accepted abs env req tx hok
   obtain ⟨pl, hpl, hpass⟩ := acc.ops _ hop
   simp only [opPasses] at hpass
   split at hpass
   · rename_i es he
     obtain ⟨rw, tv, hg, hc, hck, _⟩ := updEntries_nonjson abs pl req.pfx u es hj he
-    exact ⟨ov0, pl, rw, tv, hpl, hg, hc, fun hk => checkKeyValue_ok _ rw tv.repr hk hck⟩
+    refine ⟨ov0, pl, rw, tv, hpl, hg, hc, fun hk => ?_⟩
+    obtain ⟨ns, vs, hx, h1 | ⟨k, hown, hv⟩⟩ := checkKeyValue_ok _ rw tv.repr hk hck
+    · exact ⟨ns, vs, hx, Or.inl h1⟩
+    · refine ⟨ns, vs, hx, Or.inr ⟨k, ?_, hv, ?_⟩⟩
+      · rcases ownIdx_spec rw.attrName ns 0 none k hown with h2 | ⟨k', hk', hc'⟩
+        · cases h2
+        · have : k' = k := by omega
+          subst this; exact hc'
+      · intro j hj'
+        have := ownIdx_last rw.attrName ns 0 none k hown j hj'
+        omega
   · simp at hpass
 
 /-- Size limit, for any limit value: under a positive limit an accepted request changes exactly
-    one target and its stored change has at most `limit` entries. -/
+    one target, has at most `limit` operations, and its stored change has at most `limit` entries. -/
 theorem C13_limit_bounds_transaction (abs : Abs) (env : Env) (req : SetReq) (tx : TxRecord)
     (hok : setPre abs env req = .ok tx) (hl : env.limit > 0) :
-    tx.changes.length = 1 ∧ ∀ tc ∈ tx.changes, (tc.2.length : Int) ≤ env.limit := by
+    tx.changes.length = 1 ∧ (req.nOps : Int) ≤ env.limit ∧ ∀ tc ∈ tx.changes, (tc.2.length : Int) ≤ env.limit := by
   obtain ⟨_, acc⟩ := setPre_accepted abs env req tx hok
   exact acc.limit hl
+
+/-- Size limit: a request with more operations than a positive limit is refused, whatever the
+    operations are (repeated paths included). -/
+theorem C13_refuses_over_limit (abs : Abs) (env : Env) (req : SetReq)
+    (hl : env.limit > 0) (hn : (req.nOps : Int) > env.limit) : ∀ tx, setPre abs env req ≠ .ok tx := by
+  intro tx hok
+  obtain ⟨_, acc⟩ := setPre_accepted abs env req tx hok
+  have := (acc.limit hl).2.1
+  omega
 
 /-- Size limit: a request naming two different effective targets is refused under any positive limit. -/
 theorem C13_refuses_two_targets_under_limit (abs : Abs) (env : Env) (req : SetReq) (o1 o2 : Op)
@@ -334,12 +354,25 @@ theorem C13_effective_path_partial (abs : Abs) (env : Env) (req : SetReq) (tx : 
   simp only [noJson, List.all_eq_true, Bool.not_eq_true'] at hnj
   exact hnj u this
 
-/-- Every path of a logged change matches `validPathRegexp` (or is empty): `computeChange` now
-    returns the error of `NewChangeValue` instead of storing a nil value. -/
+/-- Every path of a logged change matches `validPathRegexp` (or is empty) and parses back into
+    gNMI elements: `computeChange` returns the error of `NewChangeValue` instead of storing a nil
+    value, and refuses a path the response could not be built from. -/
 theorem C13_logged_paths_valid (abs : Abs) (env : Env) (req : SetReq) (tx : TxRecord)
-    (hok : setPre abs env req = .ok tx) : ∀ tp ∈ tx.pairs, isPathValid tp.2 = .ok true := by
+    (hok : setPre abs env req = .ok tx) :
+    ∀ tp ∈ tx.pairs, isPathValid tp.2 = .ok true ∧ ∃ g, parsePath tp.2 = .ok g := by
   obtain ⟨_, acc⟩ := setPre_accepted abs env req tx hok
   exact acc.valid
+
+/-- A logged Set can always be answered: the SetResponse (one parsed path per change) can be
+    built for every accepted request, so no client sees an error for a change that was made. -/
+theorem C13_answer_can_be_built (abs : Abs) (env : Env) (req : SetReq) (tx : TxRecord)
+    (hok : setPre abs env req = .ok tx) : respondOK tx = true := by
+  obtain ⟨_, acc⟩ := setPre_accepted abs env req tx hok
+  unfold respondOK
+  rw [List.all_eq_true]
+  intro tp htp
+  obtain ⟨_, g, hg⟩ := acc.valid tp htp
+  simp [hg]
 
 /-! ## witnesses: where the full statements fail, and non-vacuity -/
 
@@ -466,30 +499,31 @@ theorem C13_delete_lookup_textual :
     (wRW.all fun kv => !elementBoundaryPrefix "/fo".toList (removePathIndices kv.1)) = true := by
   set_option maxRecDepth 1000000 in decide
 
-/-- `update /l[k=1]/n[k=2]/k = "1"` on t1 -/
+/-! regressions of repaired defects (corpus/C13/fixed-*.script): now refused -/
+
+/-- `update /l[k=1]/n[k=2]/k = "1"` on t1: contradicts the key of its own entry (2) -/
 def wAncestor : SetReq :=
   ⟨none, [], [], [⟨some (pm "t1" [el "l" [("k", "1")], el "n" [("k", "2")], el "k" []]), some (.str "1".toList)⟩], []⟩
 
-/-- The full key-consistency statement ("the value of a key leaf equals the key of its own list
-    entry") fails: the leaf `k` of entry `n[k=2]` is accepted with value 1, because the ancestor's
-    index `k=1` satisfies `CheckKeyValue` first (known finding KF-C13-ancestor-key). -/
-theorem C13_key_contradiction_full_fails :
-    outcome (wEnv 0) wAncestor = some (strs [("t1", "/l[k=1]/n[k=2]/k")]) ∧
-    (match extractIndexNames "/l[k=1]/n[k=2]/k".toList with
-     | .ok (ns, vs) => ns == ["k".toList, "k".toList] && vs == ["1".toList, "2".toList]
-     | .error _ => false) = true := by
-  set_option maxRecDepth 1000000 in decide
+set_option maxRecDepth 1000000 in
+example : refusal (wEnv 0) wAncestor = some (.refused .invalidArgument .keyMismatch) := by decide
 
-/-- three updates of `/foo` on t1 -/
+set_option maxRecDepth 1000000 in
+example : outcome (wEnv 0)
+    ⟨none, [], [], [⟨some (pm "t1" [el "l" [("k", "1")], el "n" [("k", "2")], el "k" []]), some (.str "2".toList)⟩], []⟩ =
+    some (strs [("t1", "/l[k=1]/n[k=2]/k")]) := by decide
+
+/-- three updates of `/foo` on t1 under a limit of 2 -/
 def wRepeat : SetReq :=
   ⟨none, [], [], [okUpd, ⟨okUpd.path, some (.str "b".toList)⟩, ⟨okUpd.path, some (.str "c".toList)⟩], []⟩
 
-/-- The full size-limit statement ("more operations than the limit ⇒ refused") fails: the check
-    counts the entries of a map keyed by path, so three updates of one path pass a limit of 2
-    (known finding KF-C13-limit-distinct).  What holds for every limit is
-    `C13_limit_bounds_transaction`. -/
-theorem C13_limit_ops_full_fails :
-    wRepeat.nOps = 3 ∧ (wEnv 2).limit = 2 ∧ outcome (wEnv 2) wRepeat = some (strs [("t1", "/foo")]) := by
-  set_option maxRecDepth 1000000 in decide
+set_option maxRecDepth 1000000 in
+example : wRepeat.nOps = 3 ∧ refusal (wEnv 2) wRepeat = some (.refused .invalidArgument .tooManyOps) := by decide
+
+/-! delete of an element named `foo[x]`: passes the non-exact lookup, cannot be parsed back -/
+
+set_option maxRecDepth 1000000 in
+example : refusal (wEnv 0) ⟨none, [pm "t1" [el "foo[x]" []]], [], [], []⟩ =
+    some (.refused .invalidArgument .invalidPath) := by decide
 
 end OnosVerif.Props.C13
